@@ -90,13 +90,15 @@ def check (c):
     mon  = {}
     worst = 0.0
     margins = {}
-    def judge (name, measured, allowed, msg):
+    famp = observe.feed_amp (mg)
+    def judge (name, measured, allowed, msg, key = None):
         nonlocal worst
         mon [name] = mon.get (name, 0) + 1
-        worst = max (worst, measured / allowed)
-        margins [name.split (':') [0]] = max (margins.get (name.split (':') [0], 0.0), measured / allowed)
+        if key != observe.IMP_KEY:
+            worst = max (worst, measured / allowed)
+            margins [name.split (':') [0]] = max (margins.get (name.split (':') [0], 0.0), measured / allowed)
         if not (measured <= allowed):
-            viol.append (dict (monitor = name, key = name, msg = msg, measured = measured, allowed = allowed))
+            viol.append (dict (monitor = name, key = key or name, msg = msg, measured = measured, allowed = allowed))
     unit = observe.min_seg (mg)
     fg = observe.current_field (mg, unit = unit)
     ff = observe.current_field (mf, unit = unit, upper_only = True)
@@ -115,7 +117,9 @@ def check (c):
         zg, zf = complex (sg.impedance), complex (sf.impedance)
         want = zf / 2 if base else zf
         kinds.append ('b' if base else 'e')
-        judge ('impedance', abs (zg - want) / abs (want), tol, 'feed impedance %r over ground, %r from the mirrored model (%s source)' % (zg, want, 'base' if base else 'elevated'))
+        rel = abs (zg - want) / abs (want)
+        judge ('impedance', rel, tol, 'feed impedance %r over ground, %r from the mirrored model (%s source; largest current / feed current = %.3g)' % (zg, want, 'base' if base else 'elevated', famp)
+              , key = observe.imp_key (rel, tol, famp))
     pg = np.array (observe.pattern (mg, nth = 9, nph = 8, th0 = 3.0, th1 = 87.0).gain)
     pf = np.array (observe.pattern (mf, nth = 9, nph = 8, th0 = 3.0, th1 = 87.0).gain)
     mxg = pg [..., 2].max ()
